@@ -7,6 +7,7 @@ import (
 	"os"
 	"os/exec"
 	"reflect"
+	"sort"
 	"strings"
 	"time"
 
@@ -234,14 +235,54 @@ func c16Check(c *ctx, t reflect.Type, witness interface{}, wlabel string, seed u
 	}
 }
 
+// nilEntries sets every pointer-typed element of every list and every pointer-typed value of every
+// map below v to nil, keeping the lengths
+func nilEntries(v reflect.Value, seen map[uintptr]bool) {
+	switch v.Kind() {
+	case reflect.Ptr:
+		if v.IsNil() || seen[v.Pointer()] {
+			return
+		}
+		seen[v.Pointer()] = true
+		nilEntries(v.Elem(), seen)
+	case reflect.Struct:
+		if v.Type() == timeType {
+			return
+		}
+		for i := 0; i < v.NumField(); i++ {
+			if v.Field(i).CanSet() {
+				nilEntries(v.Field(i), seen)
+			}
+		}
+	case reflect.Slice:
+		for i := 0; i < v.Len(); i++ {
+			if e := v.Index(i); e.Kind() == reflect.Ptr {
+				e.Set(reflect.Zero(e.Type()))
+			} else {
+				nilEntries(e, seen)
+			}
+		}
+	case reflect.Map:
+		if v.Type().Elem().Kind() == reflect.Ptr {
+			for _, k := range v.MapKeys() {
+				v.SetMapIndex(k, reflect.Zero(v.Type().Elem()))
+			}
+		}
+	}
+}
+
 func runC16(c *ctx) {
-	c.rule = "every zoo type plus self-referential, mutually recursive, slice-of-slice, custom-named and interface-holding types x witnesses from the zero value (all pointers nil, all containers nil), the empty-container value, to populated values (3 seeds), incl. cyclic witnesses; ExtractTypeNameMap must finish within a deadline, give every statically reachable struct/slice type a wire name that the type map maps back to it (custom name when declared), and the maps must encode and decode three other values of the type; TypeMapOf(type) must finish and contain every reachable struct type. Distinct by (type, witness); all non-trivial."
+	c.rule = "every zoo type plus self-referential, mutually recursive, slice-of-slice, custom-named and interface-holding types x witnesses from the zero value (all pointers nil, all containers nil), the empty-container value, to populated values (3 seeds), incl. cyclic witnesses and one whose lists and maps hold nil pointers only; ExtractTypeNameMap must finish within a deadline, give every statically reachable struct/slice type a wire name that the type map maps back to it (custom name when declared), and the maps must encode and decode three other values of the type; TypeMapOf(type) must finish and contain every reachable struct type, also when asked for many types one after the other in one process. Distinct by (type, witness); all non-trivial."
 	if os.Getenv("HX_C16_SELFPTR") != "" { // run in a subprocess under a timeout: see c16Extras
 		hessian.TypeMapOf(reflect.TypeOf(SelfPtr(nil)))
 		os.Exit(0)
 	}
 	only := os.Getenv("HX_C16_ONLY")
 	if rp, ok := c.extra["replay"].(string); ok {
+		if loadReplay(rp)["op"] == "typemapof-sequence" {
+			c16Sequence(c)
+			return
+		}
 		only = loadReplay(rp)["type"].(string)
 	}
 	if only == "" {
@@ -321,6 +362,24 @@ func runC16(c *ctx) {
 		for s := 0; s < 3; s++ {
 			witnesses, labels = append(witnesses, genValue(t, c.seed*101+uint64(ti*7+s), 20+60*s, 20)), append(labels, fmt.Sprint("populated", s))
 		}
+		// a populated witness in which every pointer entry of every list and map is nil: the containers
+		// are not empty, yet no entry leads anywhere (the element types are known statically only)
+		{
+			rv := reflect.ValueOf(genValue(t, c.seed*103+uint64(ti*5), 80, 20))
+			if rv.IsValid() {
+				if rv.Kind() != reflect.Ptr {
+					p := reflect.New(rv.Type())
+					p.Elem().Set(rv)
+					rv = p
+				}
+				nilEntries(rv, map[uintptr]bool{})
+				if t.Kind() == reflect.Struct {
+					witnesses, labels = append(witnesses, rv.Interface()), append(labels, "nilentries")
+				} else {
+					witnesses, labels = append(witnesses, rv.Elem().Interface()), append(labels, "nilentries")
+				}
+			}
+		}
 		for wi, w := range witnesses {
 			c.eval(t.String() + "/" + labels[wi])
 			c.dist["witness:"+labels[wi]]++
@@ -365,7 +424,60 @@ func runC16(c *ctx) {
 	}
 }
 
+// TypeMapOf on one type after another in ONE process (everything else asks once per process): the
+// answer for a type must not depend on which types were asked about before it - the roots first,
+// then every struct type below them (members of recursive families after their roots), then all
+// of them again in the opposite order
+func c16Sequence(c *ctx) {
+	var order []reflect.Type
+	seen := map[reflect.Type]bool{}
+	for _, t := range c16Types {
+		order = append(order, t)
+		seen[t] = true
+	}
+	for _, t := range c16Types {
+		need := map[reflect.Type]bool{}
+		staticClosure(t, need)
+		var below []reflect.Type
+		for st := range need {
+			if st.Kind() == reflect.Struct && st.Name() != "" && !seen[st] {
+				below = append(below, st)
+			}
+		}
+		sort.Slice(below, func(i, j int) bool { return below[i].String() < below[j].String() })
+		for _, st := range below {
+			seen[st] = true
+			order = append(order, st, reflect.PtrTo(st), reflect.SliceOf(reflect.PtrTo(st)))
+		}
+	}
+	for pass := 0; pass < 2; pass++ {
+		for i := range order {
+			t := order[i]
+			if pass == 1 {
+				t = order[len(order)-1-i]
+			}
+			c.eval(fmt.Sprint("sequence/", pass, "/", t.String()))
+			c.dist["typemapof_in_sequence"]++
+			in := map[string]interface{}{"op": "typemapof-sequence", "type": t.String(), "pass": pass}
+			var tmo map[string]reflect.Type
+			fin, pm := withDeadline(5*time.Second, func() { tmo = hessian.TypeMapOf(t) })
+			if !fin || pm != "" {
+				c.fail("TypeMapOf does not terminate or panics", in, pm, "")
+				return
+			}
+			need := map[reflect.Type]bool{}
+			staticClosure(t, need)
+			for st := range need {
+				if st.Kind() == reflect.Struct && st.Name() != "" && tmo[st.Name()] != st {
+					c.fail("TypeMapOf is not closed when other types were asked about before: a reachable struct type is missing", in, st.String(), "")
+				}
+			}
+		}
+	}
+}
+
 func c16Extras(c *ctx) {
+	c16Sequence(c)
 	// cyclic witnesses
 	a := &MutA{}
 	b := &MutB{A: a, M: map[string]*MutA{"a": a}}
